@@ -10,7 +10,7 @@ import re
 
 T0 = 1500000000 * 10**9
 SEC = 10**9
-KIND = "hist0"         # "hist0" is the model of the tree before the F3 fix (kept in the driver for documentation)
+KIND = "hist"          # "hist0" is the model of the tree before the F3 fix (kept in the driver for documentation)
 
 # patterns whose meaning is the same in Go's RE2 and Python's re; "-" = list not configured
 RX_POOL = ["-", "-", "-", "^a", "b$", ".*", "^$", "^(ab|cd)", "x|y", "^g[0-9]$", "a"]
